@@ -337,6 +337,26 @@ def specXFlush (rb : RB) (t : XTerm) (impl : String) : String :=
       | _, _ => "unparsable chunks"
   | _ => if impl.startsWith "CRASH" then "the flush crashed: " ++ impl else "malformed observation"
 
+/-- Pause + resume draw nothing: the bytes are complete control sequences the terminal knows, and every cell of the
+    screen ("every prior terminal content") is what it was. -/
+def specXSuspend (t : XTerm) (impl : String) : String :=
+  let ts := toks impl
+  match (field ts "pa").bind parseChunks, (field ts "re").bind parseChunks, (field ts "fl").bind parseChunks with
+  | some pa, some re, some fl =>
+    let stream := pa.flatten ++ re.flatten ++ fl.flatten
+    let new := t.screen.run stream
+    if new.ps != .ground then "the byte stream of pause + resume ends inside a control sequence"
+    else if new.unknown != t.screen.unknown then "pause + resume send a control sequence the terminal does not know"
+    else if checkAgainstVT new (vtRun t.vt stream) != "" then checkAgainstVT new (vtRun t.vt stream)
+    else
+      let cellsList := (List.range t.screen.lines.toNat).flatMap fun l => (List.range t.screen.cols.toNat).map fun c => (l, c)
+      let bad := cellsList.findSome? fun (l, c) =>
+        let o := t.screen.cells (l : Int) (c : Int)
+        let x := new.cells (l : Int) (c : Int)
+        if x == o then none else some s!"pause + resume changed cell ({l},{c}): [{showXCell o}] became [{showXCell x}]"
+      bad.getD ""
+  | _, _, _ => if impl.startsWith "CRASH" then "pause + resume crashed: " ++ impl else "malformed observation"
+
 /-! ### One step -/
 
 structure St where
@@ -435,6 +455,15 @@ def step (st : St) (ts : List String) (impl : String) : St × String × String :
         ({ st with xterm := some t, term := none, mterm := none, tl := tl, tc := tc },
           "r=- out=" ++ out ++ " pen=" ++ showPen t.pen ++ s!" caps={caps % 4}", "")
     | _, _, _, _, _ => (st, "bad-op", "")
+  | ["suspend"] =>
+    match st.xterm with
+    | some t =>
+      let x := xsuspend Tickit.Gen.TermBuf.term_resume_resends_pen t.caps t.buf t.pen
+      let m := "r=-" ++ (if x.ok then "" else "UB") ++ " pa=" ++ showChunks x.paused ++ " re=" ++ showChunks x.resumed ++
+        " fl=" ++ showChunks (if x.final.isEmpty then [] else [x.final]) ++ " pen=" ++ showPen t.pen
+      let t' := { t with screen := t.screen.run x.stream, vt := vtRun t.vt x.stream }
+      ({ st with xterm := some t' }, m, specXSuspend t impl)
+    | none => (st, "bad-op", "")
   | ["flush"] =>
     match st.rb, st.xterm with
     | some rb, some t =>
